@@ -2,9 +2,11 @@
   Line-protocol driver, part 4: optics (C14) and Var/forget (C19).  IMPORT-FREE.
 -/
 import OHVerif.Model.DriverLax
+import OHVerif.Model.VarBuild
 
 namespace OH
 namespace Drv
+open VarB
 
 def residualFam (a : Nat) : L :=
   match a % 3 with
@@ -84,38 +86,6 @@ def refRevDeriv (B : Backend) (f : F) (x dy : L) : Res (L × L) := do
   let (_, base) ← Graph.evalOrder f (0, 0) (x.map (fun v => (v, 0))) layering applyDual
   let g := cols.map (fun col => (List.zipWith (fun d o => (d * o.2) % W) dy col).foldl (fun a b => (a + b) % W) 0)
   pure (base.map (·.1), g)
-
-/-! #### the Var builder as a state machine -/
-
-structure VarH where
-  edgeId : Nat
-  label : Nat
-
-def varNew (f : LF) (label : Nat) : LF × VarH :=
-  let (h, e, _) := f.hypergraph.newOperation 99 [] []
-  ({ f with hypergraph := h }, ⟨e, label⟩)
-
-def varNewSource (f : LF) (v : VarH) : Res (LF × Nat) :=
-  (f.hypergraph.addEdgeSource v.edgeId v.label).bind fun r => .ok ({ f with hypergraph := r.1 }, r.2)
-
-def varNewTarget (f : LF) (v : VarH) : Res (LF × Nat) :=
-  (f.hypergraph.addEdgeTarget v.edgeId v.label).bind fun r => .ok ({ f with hypergraph := r.1 }, r.2)
-
-/-- `operation(builder, vars, result_types, op)` -/
-def varOperation (f : LF) (vars : List VarH) (resultTypes : L) (op : Nat) : Res (LF × List VarH) := do
-  let (f1, nodes) ← vars.foldlM (fun (acc : LF × L) v => do
-    let (f', n) ← varNewTarget acc.1 v
-    pure (f', acc.2 ++ [n])) (f, [])
-  let (f2, rvars) := resultTypes.foldl (fun (acc : LF × List VarH) t =>
-    let (f', v) := varNew acc.1 t
-    (f', acc.2 ++ [v])) (f1, [])
-  let (f3, rnodes) ← rvars.foldlM (fun (acc : LF × L) v => do
-    let (f', n) ← varNewSource acc.1 v
-    pure (f', acc.2 ++ [n])) (f2, [])
-  let (h, _) := f3.hypergraph.newEdge op ⟨nodes, rnodes⟩
-  pure ({ f3 with hypergraph := h }, rvars)
-
-def getVar (vars : List VarH) (i : Nat) : Res VarH := Res.ofOption vars[i]? "var:index"
 
 def runIns (f : LF) (vars : List VarH) (ins : Sx) : Option (Res (LF × List VarH)) :=
   match ins with
